@@ -153,6 +153,14 @@ def main(tier):
     for g in range(0, len(inc_cases), 8):
         groups.append({"id": "wi%d" % g, "cases": inc_cases[g:g + 8], "reps": 2, "readers": 0, "cold": 6})
     chk.extra["include_projects_first_validated_concurrently"] = len(inc_cases)
+    # one option VALUE shared by all projects of a group; the last project of the group adds a second banning option of
+    # its own, which must stay its own
+    for g in range(0, min(len(texts), 64 if thorough else 24), 8):
+        cs = [dict(rel.case("so%d" % (g + j), t), shared_ban=True) for j, t in enumerate(texts[g:g + 8])]
+        if len(cs) < 2:
+            continue
+        cs[-1]["banned2"] = ["GET", "POST", "PUT", "PATCH", "DELETE", "URL", "TYPE", "INFO", "SERVER", "TAG", "ENUM"]
+        groups.append({"id": "ws%d" % g, "cases": cs, "reps": 3, "readers": 0, "shared_ban": ["INCLUDE"]})
     obs4 = harness("conc", groups)
     for g in groups:
         o = obs4[g["id"]]
